@@ -322,6 +322,10 @@ def _adopt_moved(P, c, ledger, key, info, adopted):
         if rest2.rsplit("#", 1)[0] != rest:
             continue
         cands = [f for f in P.fns.values() if f.key == f2 or f.id == f2]
+        if not cands and "::{closure#" in f2:
+            # the ledgered site sat in a closure that no longer exists: fall back to the function that contained it
+            root = f2.split("::{closure#")[0]
+            cands = [f for f in P.fns.values() if f.key == root or f.id == root]
         for other in cands:
             if other.file != fn.file:
                 continue
